@@ -38,7 +38,7 @@ def tla_set(xs):
 
 
 def gen_cfg(types, ops=ALL_OPS, unary=("neg", "not", "cast"), stmts=(), lits=(0, 2), litmax=True,
-            wide=False, nodes=5, stack=3, locals_=1, params=2, frames=1):
+            wide=False, nodes=5, stack=3, locals_=1, params=2, frames=1, minnodes=0):
     return """SPECIFICATION GSpec
 CONSTANTS
   Types = %s
@@ -53,9 +53,10 @@ CONSTANTS
   MaxLocals = %d
   MaxParams = %d
   MaxFrames = %d
+  MinNodes = %d
 CHECK_DEADLOCK FALSE
 """ % (tla_set(types), tla_set(ops), tla_set(unary), tla_set(stmts), tla_set(lits),
-       "TRUE" if litmax else "FALSE", "TRUE" if wide else "FALSE", nodes, stack, locals_, params, frames)
+       "TRUE" if litmax else "FALSE", "TRUE" if wide else "FALSE", nodes, stack, locals_, params, frames, minnodes)
 
 
 # ----------------------------------------------------------------------------- register model
@@ -111,9 +112,7 @@ def model_expr(e, env, devs):
             return r
         v = s32(r) if signed(s) else r
         lo, hi = (-(1 << (BITS[t] - 1)), (1 << (BITS[t] - 1)) - 1) if signed(t) else (0, (1 << BITS[t]) - 1)
-        if BITS[t] < BITS[s] and not (lo <= v <= hi):
-            return r if "trunc" in devs else ext(t, r)   # undecided by the specification; any model
-        return max(lo, min(hi, v)) & M32
+        return max(lo, min(hi, v)) & M32                 # (narrowing + sign change is undecided; any model)
     op = e["op"]
     if op in ("and", "or"):
         a = model_expr(e["l"], env, devs)
@@ -199,10 +198,24 @@ def decode(t, reg):
     return v
 
 
-# C19_FIXED=arith,sat,trunc removes deviations from the as-written model (used to evaluate a repair
-# of the compiler: a mismatch the remaining deviations do not explain is then "unexpected")
-DEVS = tuple(d for d in ("arith", "sat", "trunc") if d not in os.environ.get("C19_FIXED", "").split(","))
-DEV_SETS = [frozenset(x) for n in (1, 2, 3) for x in itertools.combinations(DEVS, n)]
+# Deviations of the code AS WRITTEN (ArcSem.tla header).  [sat] and [trunc] were repaired in /repo
+# (676fc6a); only [arith] is still as written.  C19_DEVS=arith,sat,trunc switches repaired ones back on
+# for self-tests against an old tree.  A mismatch is first explained with the as-written deviations
+# only; a result that needs a repaired deviation is reported under its own signature, which never
+# starts with "[arith" (so a known-finding pattern for [arith] cannot hide a regression of a repair).
+ASWRITTEN = tuple(d for d in ("sat", "trunc", "arith") if d in os.environ.get("C19_DEVS", "arith").split(","))
+REPAIRED = tuple(d for d in ("sat", "trunc", "arith") if d not in ASWRITTEN)
+
+
+def _subsets(names):
+    return [frozenset(x) for n in range(1, len(names) + 1) for x in itertools.combinations(names, n)]
+
+
+DEV_SETS = _subsets(ASWRITTEN) + [x for x in _subsets(("sat", "trunc", "arith")) if not x <= set(ASWRITTEN)]
+
+
+def dev_name(ds):
+    return "+".join(d for d in ("sat", "trunc", "arith") if d in ds)
 
 
 def explain(p, args, got_o, raw):
@@ -212,7 +225,7 @@ def explain(p, args, got_o, raw):
         if o != got_o:
             continue
         if o == "t" or reg == raw:
-            return sorted(ds)
+            return ds
     return None
 
 
@@ -318,11 +331,24 @@ def plans(tier, seed):
     if tier == "quick":
         # every expression program with <= 5 tokens (one binary operator over leaves, unary chains, casts)
         # over all six types at once, all operators
-        P.append(("expr5-all", dict(types=n4 + ["i32", "u32"], nodes=5, stack=2, wide=True, lits=(2,)), None))
+        P.append(("expr5-all", dict(types=n4 + ["i32"], nodes=5, stack=2, wide=True, lits=(2,)), None))
+        P.append(("expr4-u32", dict(types=["i32", "u32", "u16"], nodes=4, stack=2, wide=True, lits=(2,)), None))
         # two nested binary operators (precedence / associativity / normalisation between operators), per type
         for t in n4:
             P.append(("expr6-" + t, dict(types=[t], ops=arith + cmp3 + ["and", "or"], unary=("neg", "not"),
                                          nodes=6, stack=3, lits=(2,), litmax=False, params=2), None))
+        # statements: every program with <= 7 tokens over one signed and one unsigned narrow type ...
+        for t in ("i8", "u16"):
+            P.append(("stmt7-" + t, dict(types=[t], ops=["+", "-", "*", "/", "%", "<"], unary=(), nodes=7, stack=2,
+                                         stmts=("let", "set", "cset", "if"), lits=(2,), litmax=False, params=1,
+                                         locals_=1, frames=1), None))
+        P.append(("stmt8-i8", dict(types=["i8"], ops=["-", "/", "<"], unary=(), nodes=8, stack=2,
+                                   stmts=("let", "set", "cset", "if"), lits=(2,), litmax=False, params=1,
+                                   locals_=1, frames=1), None))
+        # ... and seeded samples of longer bodies: control-flow heavy (few leaves) and mixed
+        P.append(("ctl-sim", dict(types=["u8"], ops=["<", "+"], unary=(), stmts=("let", "set", "if"), nodes=22,
+                                  stack=2, locals_=1, params=2, frames=2, lits=(0, 2), litmax=False, minnodes=13),
+                  "num=500"))
         P.append(("stmt-sim", dict(types=n4 + ["i32"], stmts=("let", "set", "cset", "if"), nodes=14, stack=3,
                                    locals_=2, params=2, frames=2, lits=(0, 2)), "num=350"))
     else:
@@ -367,8 +393,10 @@ def analyse(ctx, progs, rows, stats):
                           "arc.CompileText panicked (%s) on:\n%s" % (r.get("err"), p["src"]), p, r, p.get("nodes", 0)))
             continue
         if kind in ("invalid", "noinst", "nofunc"):
-            found.append(("C19 accepted program does not %s" % {"invalid": "validate", "noinst": "instantiate",
-                                                                "nofunc": "export f"}[kind],
+            m = re.search(r"type mismatch: expected (\w+), but was (\w+)", r.get("err") or "")
+            found.append(("C19 accepted program does not %s%s" % (
+                {"invalid": "validate", "noinst": "instantiate", "nofunc": "export f"}[kind],
+                " [expected %s, was %s]" % (m.group(1), m.group(2)) if m else ""),
                           "the analyzer accepted the source but the WASM module does not %s (%s):\n%s" % (
                               {"invalid": "validate", "noinst": "instantiate", "nofunc": "export f"}[kind],
                               r.get("err"), p["src"]), p, r, p.get("nodes", 0)))
@@ -389,11 +417,14 @@ def analyse(ctx, progs, rows, stats):
         got = "a trap (%s)" % r.get("err", "") if r["got_o"] == "t" else "%d (register %s)" % (r["got_v"], r.get("raw"))
         call = "f(%s)" % ", ".join(str(a) for a in r["args"])
         if ds is not None:
-            sig = "C19 narrow integers not normalised [%s]" % "+".join(ds)
+            name = dev_name(ds)
+            sig = "C19 narrow integers not normalised [%s]" % name
+            regress = [d for d in ds if d in REPAIRED]
             what = ("%s of\n%s returns %s, the language specification gives %s. The result is reproduced by the "
-                    "as-written model with deviation(s) %s (ArcSem.tla header): %s. %d of %d argument tuples differ." % (
-                        call, p["src"], got, exp, "+".join(ds), DEV_TEXT["+".join(ds)] if "+".join(ds) in DEV_TEXT
-                        else "combination of the above", r.get("nbad", 1), len(p["args"])))
+                    "as-written model with deviation(s) %s (ArcSem.tla header): %s.%s %d of %d argument tuples differ." % (
+                        call, p["src"], got, exp, name, "; ".join(DEV_TEXT[d] for d in ("sat", "trunc", "arith") if d in ds),
+                        " REGRESSION of the repaired deviation(s) %s." % "+".join(regress) if regress else "",
+                        r.get("nbad", 1), len(p["args"])))
         else:
             feats = sorted(features(p))
             sig = "C19 unexpected result [%s]" % " ".join(feats)
@@ -445,6 +476,7 @@ def run(ctx):
     for name, kw, mode in plans(ctx.tier, ctx.seed):
         r, recs = generate(ctx, name, kw, mode, workers)
         new = 0
+        recs.sort(key=lambda x: x["src"])        # TLC's print order depends on worker scheduling
         for rec in recs:
             if rec["src"] in seen:
                 continue
@@ -489,7 +521,9 @@ def run(ctx):
     for sig, what, p, r, n in found:
         first.setdefault(sig, (what, p, r))
     unexpected = [s for s in first if s.startswith("C19 unexpected")]
-    keep = [s for s in first if not s.startswith("C19 unexpected")] + unexpected[:6]
+    rest = sorted((s for s in first if not s.startswith("C19 unexpected")),
+                  key=lambda s: ("not normalised" in s, s.count("+"), s))
+    keep = unexpected[:5] + rest            # vlib reports at most 8 unknown signatures per run
     if keep:
         again = [first[s][1] for s in keep]
         summ2, rows2, _ = run_harness(ctx, again, "repro", workers=2)
